@@ -66,6 +66,7 @@ type Config struct {
 	solverKind  string
 	eventMode   bool
 	maxAllocCells int
+	bigAlloc      int
 }
 
 type Exec struct {
@@ -117,6 +118,7 @@ type Exec struct {
 	branchSites  int
 	evOn         bool
 	qcache       map[string]cacheEntry
+	auxVars      []*Term
 	cacheHits    int
 }
 
@@ -314,6 +316,7 @@ func (ex *Exec) callValue(fv Value, args []Value, site *ssa.CallCommon) Value {
 		ex.goPanicStr("runtime error: invalid memory address or nil pointer dereference (call of nil func)")
 	}
 	if f.native != nil {
+		ex.matArgs(args)
 		return f.native(ex, args)
 	}
 	if f.builtin != nil {
@@ -329,11 +332,13 @@ func (ex *Exec) callFunction(fn *ssa.Function, args []Value, fvs []Value) (ret V
 	}
 	if fn.Signature.Recv() == nil && fn.Pkg != nil && len(fn.Name()) > 1 && fn.Name()[0] == 'v' {
 		if f, ok := apiFns[fn.Name()]; ok {
+			ex.matArgs(args)
 			return f(ex, fn, args)
 		}
 	}
 	if in, ok := intrinsics[name]; ok {
 		ex.stubsUsed[name] = true
+		ex.matArgs(args)
 		return in(ex, fn, args)
 	}
 	if strings.HasSuffix(name, ".init") && fn.Pkg != nil && fn.Name() == "init" {
@@ -553,11 +558,11 @@ func (ex *Exec) exec(fr *Frame, in ssa.Instruction) {
 	case *ssa.ChangeType:
 		ex.set(fr, x, ex.get(fr, x.X))
 	case *ssa.Convert:
-		ex.set(fr, x, ex.convert(x.X.Type(), x.Type(), ex.get(fr, x.X)))
+		ex.set(fr, x, ex.convert(x.X.Type(), x.Type(), ex.matV(ex.get(fr, x.X))))
 	case *ssa.MultiConvert:
-		ex.set(fr, x, ex.convert(x.X.Type(), x.Type(), ex.get(fr, x.X)))
+		ex.set(fr, x, ex.convert(x.X.Type(), x.Type(), ex.matV(ex.get(fr, x.X))))
 	case *ssa.SliceToArrayPointer:
-		s := ex.get(fr, x.X).(*SliceVal)
+		s := ex.mat(ex.get(fr, x.X).(*SliceVal))
 		n := int(x.Type().(*types.Pointer).Elem().Underlying().(*types.Array).Len())
 		if s.len < n {
 			ex.goPanicStr("runtime error: cannot convert slice to array pointer: length too short")
@@ -747,4 +752,11 @@ func globalTouchedByInit(g *ssa.Global) bool {
 	}
 	initTouchCache[g] = touched
 	return touched
+}
+
+func (ex *Exec) matV(v Value) Value {
+	if sv, ok := v.(*SliceVal); ok && sv != nil && sv.symLen != nil {
+		return ex.mat(sv)
+	}
+	return v
 }
